@@ -61,11 +61,26 @@ class Child(Pool):
 # driving the real objects
 
 
-def build(label, children):
+class ValueChild(Child):
+    """Pools that compare (and hash) by what kind of pool they are, not by identity: two
+    children of one kind are equal, yet they are two children"""
+
+    def __init__(self, supply, utilisation, allocation):
+        super().__init__(supply, utilisation, allocation)
+        self.kind = (supply, utilisation, allocation)
+
+    def __eq__(self, other):
+        return isinstance(other, ValueChild) and self.kind == other.kind
+
+    def __hash__(self):
+        return hash(self.kind)
+
+
+def build(label, children, child_class=None):
     from cobald.composite.uniform import UniformComposite
     from cobald.composite.weighted import WeightedComposite
 
-    mine = [Child(*kind) for kind in children]
+    mine = [(child_class or Child)(*kind) for kind in children]
     if label == "uniform":
         composite = UniformComposite(*mine)
     else:
@@ -194,7 +209,8 @@ def run_case(case):
     (clause, description, index of the failing op or -1) or None"""
     label, ops = case["label"], [tuple(op) for op in case["ops"]]
     try:
-        composite, mine = build(label, [tuple(kind) for kind in case["children"]])
+        composite, mine = build(label, [tuple(kind) for kind in case["children"]],
+                                ValueChild if case.get("twins") else None)
         problem = check_always(label, composite, mine)
     except Exception as err:  # noqa: B902
         problem = ("raised-%s" % type(err).__name__, "construction raised %s" % err)
@@ -478,7 +494,36 @@ def shard_bfs(args):
     return acc
 
 
+def shard_twins(args):
+    """Children that are equal to each other (value equality) but distinct objects"""
+    label, count = args
+    acc = Acc()
+    for children in itertools.product(KINDS, repeat=count):
+        if len(set(children)) == count:
+            continue
+        children = list(children)
+        for demand in DEMANDS:
+            case = {"label": label, "children": children, "ops": [("write", demand)],
+                    "twins": True}
+            try:
+                composite, mine = build(label, children, ValueChild)
+                problem = check_always(label, composite, mine) or step(
+                    label, composite, mine, ("write", demand))
+            except Exception as err:  # noqa: B902
+                problem = ("raised-%s" % type(err).__name__, "raised %s" % err)
+            acc.case(nontrivial_key=(label, tuple(children), demand, "twins") if demand else None)
+            acc.transitions += 1
+            acc.outcome(("twins", problem[0] if problem else None))
+            if problem:
+                acc.violation("equal-children:" + problem[0],
+                              "children that compare equal (%r): %s" % (children, problem[1]),
+                              case)
+    return acc
+
+
 def shard(args):
+    if args[0] == "twins":
+        return shard_twins(args[1:])
     return {"grid": shard_grid, "bfs": shard_bfs, "extreme": shard_extreme}[args[0]](args[1:])
 
 
@@ -515,6 +560,7 @@ def run(ctx):
         for children in scenarios:
             shards.append(("bfs", label, children, depth + (len(children) <= DEEPER)))
     shards += [("extreme", count) for count in (1, 2, 3)]
+    shards += [("twins", label, count) for label in LABELS for count in (2, 3)]
     ctx.pmap(shard, shards)
     counters = ctx.acc.counters
     ctx.meta.update(
